@@ -127,6 +127,7 @@ func runPlan(cd *common.Codec, f model.Format, sc *Scenario, data []byte, refs [
 	truncIn int, x *simkit.Ctx) *simkit.Violation {
 	st := x.Stats
 	simkit.SetCurrent(sc)
+	x.Alive()
 	k := len(refs)
 	t := simkit.NewTap(nil)
 	t.Clock = &x.Clock
